@@ -69,7 +69,52 @@ def seipd_decrypt(cname):
                          ex.seq(v2, s2) == z3.Extract(PT2, bs + 2, n2 - bs - 2))
         r.oblige(st, 'cover-accepting-path', z3.BoolVal(nret > 0))
         return r.result()
-    return Scenario(label, SEIPD + '.decrypt', gen, props=('C04', 'C03'))
+    def native(rng, n):
+        """well-formed containers made by the independent side (lengths as for encrypt) are opened to their data; one flipped octet is refused"""
+        import hashlib as H
+        from cryptography.hazmat.primitives.ciphers import Cipher, modes
+        from pgpy.packet.packets import IntegrityProtectedSKEDataV1
+        from pgpy.constants import SymmetricKeyAlgorithm
+        from pgpy.errors import PGPDecryptionError
+        from specs import indep
+        alg = SymmetricKeyAlgorithm(algid)
+        ccls, klen, _ = indep.CIPHERS[algid]
+        lens = [0, 1, bs, 64, 100] + [m * k - (bs + 2) + d for m in (64, 4096, 65536) for k in (1, 2) for d in (-1, 0, 1)] + \
+               [rng.randrange(0, 5000) for _ in range(max(4, n // 50))]
+        viol, cases = [], 0
+        for ln in lens:
+            if ln < 0:
+                continue
+            data = (bytes(rng.getrandbits(8) for _ in range(min(ln, 256))) * (ln // 256 + 1))[:ln]
+            key, pre = bytes(rng.getrandbits(8) for _ in range(klen)), bytes(rng.getrandbits(8) for _ in range(bs))
+            body = pre + pre[-2:] + data + b'\xd3\x14'
+            body += H.sha1(body).digest()
+            e = Cipher(ccls(key), modes.CFB(b'\x00' * bs)).encryptor()
+            ct = e.update(body) + e.finalize()
+            for flip in (None, rng.randrange(len(ct))):
+                cases += 1
+                c2 = bytearray(ct)
+                if flip is not None:
+                    c2[flip] ^= 0x01
+                pkt = IntegrityProtectedSKEDataV1()
+                pkt.ct = bytearray(c2)
+                why = None
+                try:
+                    out = bytes(pkt.decrypt(key, alg))
+                    if flip is None and out != body[bs + 2:]:          # everything after the prefix (the MDC packet included: the caller parses it)
+                        why = 'a well-formed container opens to other octets'
+                    elif flip is not None:
+                        why = 'a container with one flipped octet is accepted'
+                except PGPDecryptionError:
+                    if flip is None:
+                        why = 'a well-formed container is refused (PGPDecryptionError)'
+                except Exception as ex:
+                    why = 'raised %s: %s' % (type(ex).__name__, str(ex)[:60])
+                if why:
+                    viol.append({'args': {'cipher': cname, 'data_octets': ln, 'hashed_octets': ln + bs + 2 + 2, 'flipped_octet': flip}, 'violation': why})
+                    return {'cases': cases, 'violations': viol}
+        return {'cases': cases, 'violations': viol}
+    return Scenario(label, SEIPD + '.decrypt', gen, props=('C04', 'C03'), native=native)
 
 
 def seipd_encrypt(cname):
@@ -123,7 +168,42 @@ def seipd_encrypt(cname):
             r.oblige(s, 'under-the-session-key-and-cipher/p%d' % pi, z3.And(ex.seq(a[1], s) == KEYB, ex.as_int(a[2]) == algid))
             r.oblige(s, 'packet-holds-the-ciphertext/p%d' % pi, ex.seq(s.heap[('pkt', 'ct')], s) == CT)
         return r.result()
-    return Scenario(label, SEIPD + '.encrypt', gen, props=('C03', 'C13'))
+    def native(rng, n):
+        """the real packet against an independent RFC 4880 5.13 reader; data lengths include the ones that make the hashed stretch a multiple
+        of the sizes implementations hash in (64 octets: a SHA-1 block; 4 KiB; 64 KiB)"""
+        import hashlib as H
+        from pgpy.packet.packets import IntegrityProtectedSKEDataV1
+        from pgpy.constants import SymmetricKeyAlgorithm
+        from specs import indep
+        alg = SymmetricKeyAlgorithm(algid)
+        klen = indep.CIPHERS[algid][1]
+        lens = [0, 1, 2, bs - 2, bs, 63, 64, 100] + [m * k - (bs + 2) + d for m in (64, 4096, 65536) for k in (1, 2) for d in (-1, 0, 1)] + \
+               [rng.randrange(0, 5000) for _ in range(max(4, n // 50))]
+        viol, cases = [], 0
+        for ln in lens:
+            if ln < 0:
+                continue
+            data, key = bytes(rng.getrandbits(8) for _ in range(min(ln, 256))) * (ln // 256 + 1), bytes(rng.getrandbits(8) for _ in range(klen))
+            data = data[:ln]
+            cases += 1
+            pkt = IntegrityProtectedSKEDataV1()
+            try:
+                pkt.encrypt(key, alg, data)
+                pt = indep.cfb_decrypt(algid, key, bytes(pkt.ct))
+                why = None
+                if pt[bs - 2:bs] != pt[bs:bs + 2]:
+                    why = 'prefix does not repeat its last two octets'
+                elif pt[bs + 2:-22] != data:
+                    why = 'the data is not what follows the prefix'
+                elif pt[-22:] != b'\xd3\x14' + H.sha1(pt[:-20]).digest():
+                    why = 'modification detection code is not D3 14 || SHA-1(prefix || data || D3 14)'
+            except Exception as ex:
+                why = 'raised %s: %s' % (type(ex).__name__, str(ex)[:60])
+            if why:
+                viol.append({'args': {'cipher': cname, 'data_octets': ln, 'hashed_octets': ln + bs + 2 + 2}, 'violation': why})
+                break
+        return {'cases': cases, 'violations': viol}
+    return Scenario(label, SEIPD + '.encrypt', gen, props=('C03', 'C13'), native=native)
 
 
 def symenc(direction):
